@@ -44,7 +44,7 @@ def assign_to(path):
     pr = re.compile(path)
 
     def f(b, e):
-        return e.kind == "assign" and pr.search(b.path_of_place(e.data["p"])) is not None
+        return e.kind == "assign" and bool(e.data["p"][1]) and pr.search(b.path_of_place(e.data["p"])) is not None
     return f
 
 
